@@ -151,6 +151,8 @@ const (
 	lossHang     // Hangs for 10s
 	lossSlowTime = 2 * time.Second
 	lossHangTime = 10 * time.Second
+	// maxLossItvlDurS is the longest accepted interval duration in seconds
+	maxLossItvlDurS = 1_000_000_000
 )
 
 // LossItvls is loss intervals for one BaseURL
@@ -211,6 +213,9 @@ func CreateLossItvls(pattern string) (LossItvls, error) {
 				return LossItvls{}, fmt.Errorf("invalid loss pattern %q", pattern)
 			}
 			dur = dur*10 + int(digit)
+			if dur > maxLossItvlDurS {
+				return LossItvls{}, fmt.Errorf("invalid loss pattern %q", pattern)
+			}
 		}
 	}
 	if state != lossUnknown {
